@@ -13,7 +13,7 @@ def plan(tier):
             "pattern_shorter_than_q", "codes_full_word", "codes_sigma1", "codes_beyond_2p30",
             "pairs_exhaustive_small", "hash_side_seq1", "hash_side_seq2", "k_longer_than_a_sequence",
             "empty_match_list", "chain_step_continuation", "chain_step_jump", "expand_grew",
-            "chains_on_expanded", "arbitrary_match_list", "nontrivial"],
+            "chains_on_expanded", "arbitrary_match_list", "grid_exhaustive_small", "nontrivial"],
         "rule": "qgram: one run = one QGramIndex (alphabet, q, text, max_count) asked qgram_matches for the q-grams "
                 "of the text / random / all q-grams, matches(min_count in {0,1,2,5}) and exact_matches for unrelated, "
                 "identical, planted (every diagonal, pattern offset > text position, a mismatch in the middle) and "
